@@ -102,7 +102,7 @@ def gaussian_syn_likelihood(ssx, ssy, shrinkage=None, penalty=None, whitening=No
     Estimate of the logpdf for the approximate posterior at x.
 
     """
-    ssy = np.squeeze(ssy)
+    ssy = np.atleast_1d(np.squeeze(ssy))
     if whitening is not None:
         ssy = np.matmul(whitening, ssy)
         ssx = np.matmul(ssx, np.transpose(whitening))  # decorrelated sim sums
